@@ -369,3 +369,19 @@ Print Assumptions C15_source_implicit_roles_is_reach.
 Example C15_source_implicit_roles_example :
   ImplLang.qrun k_rbac15 1003 0 (names_bound ex_state) 30 ImplRolesGen.implicit_roles_gen ex_state = Ok ([1006; 1007; 1003], ex_state).
 Proof. vm_compute. reflexivity. Qed.
+
+(* ---------- get_implicit_users_for_permission, from the source ----------
+   regenerated from casbin/enforcer.py on this run (coq/gen/ImplUsersGen.v; recognised steps, the util helpers compared with
+   their recognised bodies), executed by ImplUsersLang's interpreter: result, threaded state and errors are those of
+   Mgmt.get_implicit_users_for_permission - the function of the users-for-permission theorems above. *)
+From PyCasbin Require ImplUsersLang ImplUsersTie.
+From PyCasbinGen Require ImplUsersGen.
+
+Theorem C15_source_get_implicit_users_for_permission : forall k s perm,
+  ImplUsersLang.urun k perm 30 ImplUsersGen.implicit_users_gen s = get_implicit_users_for_permission k s perm.
+Proof. exact ImplUsersTie.tie_get_implicit_users_for_permission. Qed.
+Print Assumptions C15_source_get_implicit_users_for_permission.
+
+Example C15_source_implicit_users_example :
+  snd (ImplUsersLang.urun k_rbac15 [1008; 1011] 30 ImplUsersGen.implicit_users_gen ex_state) = Ok [1004].
+Proof. vm_compute. reflexivity. Qed.
